@@ -392,6 +392,27 @@ func c07Run(c *core.Ctx) {
 				}
 			}
 		}
+		// the input ends inside the malformed statement (an open bracket or block): if a tree comes back at all, the statements
+		// before it must be in it where they belong
+		for ci, ctx := range c07Contexts {
+			for _, a := range forms {
+				for _, b := range append([]string{""}, forms...) {
+					for _, m := range []string{"foo (", "function g ( ) { foo (", "if ( $x ) {", "$a = [ 1 ,", "class D { function m ( ) {", "\"x {$a"} {
+						if !c.Next() {
+							continue
+						}
+						before := []string{a}
+						if b != "" {
+							before = append(before, b)
+						}
+						src := "<?php " + ctx.open + strings.Join(before, " ") + " " + m
+						cs := c07Case{srcCase: mkCase(src, f.V, "input ends inside a malformed statement in "+ctx.name), Ctx: ci, Before: before, M: m}
+						c.Stat("truncated_lists", 1)
+						c07One(c, cs)
+					}
+				}
+			}
+		}
 		// the scanner keeps a stack of modes (blocks, interpolation, heredocs, property names): statements that push and
 		// pop it, alone and in pairs, before every malformed statement after which parsing must continue, followed by
 		// two plain statements — recovery has to find the statement level again whatever the stack has been through
